@@ -39,7 +39,7 @@ func DrawConfig(t *simcore.Tape, thorough bool) Config {
 	c := Config{
 		Nodes:      3 + t.CfgDraw(3),
 		Chans:      2 + t.CfgDraw(3),
-		Peers:      1 + t.CfgDraw(3),
+		Peers:      2 + t.CfgDraw(3),
 		MaxSteps:   []int{40, 60, 90}[t.CfgDraw(3)],
 		WCA:        []int{3, 5, 8}[t.CfgDraw(3)],
 		WCU:        []int{6, 10, 16}[t.CfgDraw(3)],
@@ -76,6 +76,12 @@ type Sim struct {
 	everChan     map[uint64]*pChan
 	everEndpoint map[[33]byte]bool
 
+	dirty    map[string]bool   // wire messages generated with a variant or corruption
+	// Sequential arm only: what the node is known to have buffered, so that
+	// the simulator never makes it replay two conflicting messages at once
+	// (their relative order would be the Go scheduler's choice).
+	futurePending    map[uint64]uint32 // scid -> its block height (beyond the tip)
+	prematurePending map[string]bool   // "scid/dir" of an update buffered for an unknown channel
 	lastTs   map[string]uint32 // highest timestamp generated per key
 	applied  int
 	spends   int
@@ -110,6 +116,10 @@ func Run(t *testing.T, r *simcore.Run, thorough bool) {
 	}
 	var carried interface{}
 	var foreign string
+	if traceDir != "" && !r.Tape.Replay() {
+		traceFile, _ = os.Create(fmt.Sprintf("%s/%d.txt", traceDir, r.Seed))
+		defer func() { traceFile.Close(); traceFile = nil }()
+	}
 	// Real-time watchdog (outside the bubble): a bubble whose goroutines are
 	// blocked in a way synctest does not count as idle would hang forever.
 	wd := time.AfterFunc(90*time.Second, func() {
@@ -119,7 +129,8 @@ func Run(t *testing.T, r *simcore.Run, thorough bool) {
 	defer wd.Stop()
 	synctest.Test(t, func(t *testing.T) {
 		s := &Sim{r: r, cfg: cfg, byWire: map[string]*msgInfo{}, everChan: map[uint64]*pChan{},
-			everEndpoint: map[[33]byte]bool{}, lastTs: map[string]uint32{}}
+			everEndpoint: map[[33]byte]bool{}, lastTs: map[string]uint32{}, dirty: map[string]bool{},
+			futurePending: map[uint64]uint32{}, prematurePending: map[string]bool{}}
 		defer func() {
 			if p := recover(); p != nil {
 				carried = p
@@ -407,9 +418,28 @@ func (s *Sim) mine() string {
 		r.Count("fault_funding_spent")
 	}
 	r.Kind("block")
-	h := s.w.chain.MineBlock(extra...)
-	logf(r, "#%d block %d mined: %s", s.step, h, label)
+	h, toView, toEpochs := s.w.chain.MineBlock(extra...)
+	order := "graph builder hears first"
+	if r.Draw(2) == 1 {
+		toView, toEpochs = toEpochs, toView
+		order = "gossiper hears first"
+	}
+	logf(r, "#%d block %d mined: %s; %s", s.step, h, label, order)
+	if s.cfg.Burst && r.Draw(2) == 1 {
+		// concurrent arm: both notifications at once
+		toView()
+		toEpochs()
+	} else {
+		toView()
+		s.w.settle()
+		toEpochs()
+	}
 	s.w.settle()
+	for k, height := range s.futurePending {
+		if height <= uint32(h) {
+			delete(s.futurePending, k)
+		}
+	}
 	return fmt.Sprintf("after block %d (%s)", h, label)
 }
 
@@ -443,12 +473,20 @@ func (s *Sim) applyFilter() string {
 }
 
 type pending struct {
-	d     *delivery
-	label string
-	peer  string
+	d      *delivery
+	label  string
+	peer   string
+	bufKey string
 }
 
 // send delivers wire bytes w from a drawn peer (no settling).
+//
+// The gossiper keeps a reject cache keyed by (channel id, sending peer) that
+// never expires: one bad announcement from a peer silences that peer for the
+// channel. To keep runs productive, peer P0 is an honest relay (it only ever
+// forwards messages that were generated without corruption or variant), the
+// other peers forward anything; a clean message comes from P0 half of the
+// time.
 func (s *Sim) send(w []byte, label string) *pending {
 	r := s.r
 	msg, err := decode(w)
@@ -469,11 +507,50 @@ func (s *Sim) send(w []byte, label string) *pending {
 		logf(r, "#%d every peer has been disconnected: [%s] not delivered", s.step, label)
 		return nil
 	}
-	p := cands[r.Draw(len(cands))]
+	bufKey := ""
+	if !s.cfg.Burst {
+		var scid lnwire.ShortChannelID
+		dir := -1
+		switch m := msg.(type) {
+		case *lnwire.ChannelAnnouncement1:
+			scid = m.ShortChannelID
+		case *lnwire.ChannelUpdate1:
+			scid = m.ShortChannelID
+			dir = int(m.ChannelFlags & lnwire.ChanUpdateDirection)
+		}
+		if _, isNA := msg.(*lnwire.NodeAnnouncement1); !isNA {
+			id := scid.ToUint64()
+			if scid.BlockHeight > uint32(s.w.chain.Height()) {
+				if _, busy := s.futurePending[id]; busy {
+					logf(r, "#%d [%s] withheld: the node already buffers a message for that future channel", s.step, label)
+					r.Count("withheld_for_determinism")
+					return nil
+				}
+				s.futurePending[id] = scid.BlockHeight
+			} else if dir >= 0 && s.proj.chans[id] == nil {
+				bufKey = fmt.Sprintf("%d/%d", id, dir)
+				if s.prematurePending[bufKey] {
+					logf(r, "#%d [%s] withheld: the node already buffers an update for that unknown channel and direction", s.step, label)
+					r.Count("withheld_for_determinism")
+					return nil
+				}
+			}
+		}
+	}
+	dirty := s.dirty[string(w)]
+	var p *simPeer
+	switch {
+	case dirty && len(cands) > 1 && cands[0] == s.w.peers[0]:
+		p = cands[1+r.Draw(len(cands)-1)]
+	case !dirty && cands[0] == s.w.peers[0] && r.Draw(2) == 0:
+		p = cands[0]
+	default:
+		p = cands[r.Draw(len(cands))]
+	}
 	s.remember(w, label)
 	logf(r, "#%d %s delivers [%s]", s.step, p.name, label)
 	r.Count("delivered")
-	return &pending{d: s.w.Deliver(p, msg), label: label, peer: p.name}
+	return &pending{d: s.w.Deliver(p, msg), label: label, peer: p.name, bufKey: bufKey}
 }
 
 func (s *Sim) report(p *pending) {
@@ -483,6 +560,9 @@ func (s *Sim) report(p *pending) {
 	if !done {
 		logf(s.r, "  [%s] -> no answer (buffered)", p.label)
 		s.r.Count("probe_buffered_no_answer")
+		if p.bufKey != "" {
+			s.prematurePending[p.bufKey] = true
+		}
 		return
 	}
 	if err != nil {
@@ -584,6 +664,12 @@ func (s *Sim) genMessage(kind string) ([]byte, string) {
 	u := s.u
 	var w []byte
 	var label string
+	dirty := false
+	defer func() {
+		if dirty {
+			s.dirty[string(w)] = true
+		}
+	}()
 	switch kind {
 	case "dup":
 		mi := s.order[r.Draw(len(s.order))]
@@ -628,6 +714,7 @@ func (s *Sim) genMessage(kind string) ([]byte, string) {
 				sp.signers[0] = s.w.self.priv
 				label += " node1:=our own key (re-signed)"
 			}
+			dirty = true
 			r.Count("variant_ca")
 		}
 		w = sp.wire()
@@ -686,6 +773,7 @@ func (s *Sim) genMessage(kind string) ([]byte, string) {
 				sp.signer = u.nodes[r.Draw(len(u.nodes))].priv
 				label += " signed by a drawn universe node"
 			}
+			dirty = true
 			r.Count("variant_cu")
 		}
 		w = sp.wire()
@@ -722,6 +810,7 @@ func (s *Sim) genMessage(kind string) ([]byte, string) {
 				sp.signer = n.priv
 				label += " claims to be OUR node (signed by " + short(n.pub[:]) + ")"
 			}
+			dirty = true
 			r.Count("variant_na")
 		}
 		w = sp.wire()
@@ -730,6 +819,7 @@ func (s *Sim) genMessage(kind string) ([]byte, string) {
 	// wire-level corruption of the signed message (never re-signed)
 	if r.Chance(1, s.cfg.CorruptDen) {
 		w = append([]byte(nil), w...)
+		dirty = true
 		s.corrupt++
 		r.Count("fault_wire_corruption")
 		switch r.Draw(5) {
@@ -811,6 +901,8 @@ func indexOf(hay, needle []byte) int {
 }
 
 var traceToStderr = os.Getenv("GOSSIPSIM_TRACE") != ""
+var traceDir = os.Getenv("GOSSIPSIM_TRACE_DIR")
+var traceFile *os.File
 
 // logf appends to the (hashed) event trace; with GOSSIPSIM_TRACE set the line
 // is also printed immediately (debugging aid; output is not part of any result).
@@ -818,5 +910,8 @@ func logf(r *simcore.Run, format string, args ...interface{}) {
 	r.Logf(format, args...)
 	if traceToStderr {
 		fmt.Fprintf(os.Stderr, "  | "+format+"\n", args...)
+	}
+	if traceFile != nil {
+		fmt.Fprintf(traceFile, format+"\n", args...)
 	}
 }
